@@ -198,3 +198,24 @@ func init() {
 		return tb.Restrict(was, c.st.ctx), true
 	}
 }
+
+// floating point helpers (float64 is encoded over the reals: NaN and infinities do not exist)
+func init() {
+	in := intrinsics
+	in["math.Min"] = func(ex *Exec, c *callCtx) (Value, bool) {
+		a, b := c.args[0].(*Term), c.args[1].(*Term)
+		return ex.tb.Ite(ex.tb.Lt(a, b), a, b), true
+	}
+	in["math.Max"] = func(ex *Exec, c *callCtx) (Value, bool) {
+		a, b := c.args[0].(*Term), c.args[1].(*Term)
+		return ex.tb.Ite(ex.tb.Lt(a, b), b, a), true
+	}
+}
+
+func init() {
+	// d.Seconds() = float64(sec) + float64(nsec)/1e9, which is d/1e9 exactly over the reals
+	intrinsics["(time.Duration).Seconds"] = func(ex *Exec, c *callCtx) (Value, bool) {
+		d := ex.durToInt(c.args[0].(*Term))
+		return ex.tb.Div(ex.tb.ToReal(d), ex.tb.RealInt(1000000000)), true
+	}
+}
